@@ -34,7 +34,7 @@ func (c05) Rule() string {
 }
 func (c05) Batches(tier string) int { return 32 }
 func (c05) Required(string) []string {
-	return []string{"compiles", "compiled_ok", "scans", "parse_errors", "compile_errors", "boundary_cases", "mutations", "random_inputs", "opt.noopt", "opt.limit1", "trace_on", "modules.source", "modules.builtin", "symtab.eval-session", "symtab.disabled", "limit_rejections"}
+	return []string{"compiles", "compiled_ok", "scans", "parse_errors", "compile_errors", "boundary_cases", "mutations", "random_inputs", "opt.noopt", "opt.limit1", "trace_on", "modules.source", "modules.builtin", "symtab.eval-session", "symtab.disabled", "limit_rejections", "option_combinations"}
 }
 func (c05) Assumptions() []string {
 	return []string{"Go stack exhaustion by nesting deeper than the explored bound (2000) is a fatal error outside the explored sizes", "a watchdog firing twice on the same input is reported as a hang; once is inconclusive"}
@@ -250,6 +250,42 @@ func c05options() []c05opt {
 		}},
 		{"eval-session", func() (ugo.CompilerOptions, bool) { return ugo.CompilerOptions{ModuleMap: c05sourceModules()}, true }},
 	}
+}
+
+// c05comboOptions: every combination of the three trace flags x trace writer set / nil x optimizer off / default / budget 1
+// (flags and writer are independent fields; code paths test one or the other).
+func c05comboOptions() []c05opt {
+	var out []c05opt
+	for bits := 0; bits < 8; bits++ {
+		for w := 0; w < 2; w++ {
+			for o := 0; o < 3; o++ {
+				bits, w, o := bits, w, o
+				name := fmt.Sprintf("combo-P%dC%dO%d-writer%d-opt%d", bits&1, bits>>1&1, bits>>2&1, w, o)
+				out = append(out, c05opt{name, func() (ugo.CompilerOptions, bool) {
+					op := ugo.CompilerOptions{TraceParser: bits&1 != 0, TraceCompiler: bits&2 != 0, TraceOptimizer: bits&4 != 0}
+					if w == 1 {
+						op.Trace = io.Discard
+					}
+					switch o {
+					case 0:
+						op.NoOptimize = true
+					case 2:
+						op.OptimizerLimit = 1
+					}
+					op.ModuleMap = c05sourceModules()
+					return op, false
+				}})
+			}
+		}
+	}
+	return out
+}
+
+var c05comboProbes = []string{
+	"return true && false", "x := 1 || 2\nreturn x", "return \"s\" && 0 ? 1 : 2", "a := 1\nif a > 0 && 2 > 1 {\n  a = 2\n}\nreturn a",
+	"for i := 0; i < 3; i++ {\n  if i == 1 {\n    continue\n  }\n}\nreturn 1", "try {\n  throw 1\n} catch e {\n  return e\n} finally {\n}",
+	"const k = 2\nf := func(a, ...b) {\n  return a ? b : k * 3\n}\nreturn f(1 + 2, 3)", "m := import(\"good\")\nreturn m",
+	"return 1 + ", "x := := 1", "return undefinedName",
 }
 
 // compileGuarded runs fn under recover and a watchdog.
@@ -575,6 +611,10 @@ func (m c05) Run(c *core.Ctx) {
 	for _, o := range options {
 		byName[o.name] = o
 	}
+	combos := c05comboOptions()
+	for _, o := range combos {
+		byName[o.name] = o
+	}
 	if c.Replay != nil {
 		var w c05wit
 		if json.Unmarshal(c.Replay, &w) == nil {
@@ -622,8 +662,24 @@ func (m c05) Run(c *core.Ctx) {
 		c.Count("boundary_cases")
 		c.Nontrivial("boundary " + bc.name)
 	}
-	// (2) mutations of the corpus and of generated programs
+	// (1b) option combinations x probe programs and corpus programs
 	corpus := c05corpus()
+	for pi, src := range append(append([]string{}, c05comboProbes...), corpus...) {
+		idx++
+		if idx%c.NBatch != c.Batch {
+			continue
+		}
+		src := src
+		if !c.Begin(func() string { return "option combinations\n" + trunc(src, 3000) }) {
+			continue
+		}
+		for _, o := range combos {
+			m.one(c, []byte(src), o, "option-combination")
+			c.Count("option_combinations")
+		}
+		c.Nontrivial(fmt.Sprintf("combo %d", pi))
+	}
+	// (2) mutations of the corpus and of generated programs
 	nmut := c.Pick(1500, 150000)
 	g := gen.Opts{MaxStmts: 18, MaxDepth: 3, ExprDepth: 2, Try: 0.4, Throw: 0.1, Funcs: 0.6, Shadow: 0.2, BuiltinShadow: 0.05, Consts: 0.4, Globals: true, DeepRecursion: 5, Modules: 0}
 	for i := 0; i < nmut; i++ {
